@@ -33,6 +33,10 @@ def h8(obj):
     return hashlib.sha1(obj).hexdigest()[:16]
 
 
+class _BudgetExhausted(Exception):
+    pass
+
+
 class Failure:
     def __init__(self, sig, msg, detail=None):
         self.sig = sig
@@ -197,11 +201,15 @@ class Runner:
         @given(strat)
         def test(case):
             if ctx.out_of_time():
+                # stop generating: explored less, recorded as budget_hit (never a verdict)
                 self.stats.budget_hit = True
-                return
+                raise _BudgetExhausted()
             self.handle(case, "hypothesis")
 
-        test()
+        try:
+            test()
+        except _BudgetExhausted:
+            pass
 
     def shrink(self, sig):
         """Minimise the smallest collected failing case of one signature (own ddmin, bounded)."""
